@@ -5,7 +5,7 @@ CONSTANTS
   TreeSet <- TreesMid
   Ops <- OpsAll
   MaxLen = 2
-  Prots <- ProtsQuick
+  Prots <- ProtsDefault
   FixDelete = TRUE
   FixPatch = TRUE
 INVARIANT TypeOK
